@@ -42,6 +42,9 @@ class Metrics:
     def domain(self, name: str) -> str:
         return self.spec.AXIOMS[name][0] if name in self.spec.AXIOMS else "R"
 
+    def form_domain(self, name: str) -> str:
+        return getattr(self.spec, "FORM_DOMAIN", {}).get(name, self.domain(name))
+
     def translated(self, name: str, domain: str = None):
         domain = domain or self.domain(name)
         key = (name, domain)
@@ -66,7 +69,7 @@ def check_closed_forms(rep, M: Metrics, pre: str = "") -> int:
             rep.fn(pre + "FORM-known", M.repo.need_method("OPF", "__init__"), f"identifier {name!r}", False,
                    "registry identifier without a reference closed form")
             continue
-        tr, ops = M.translated(name)
+        tr, ops = M.translated(name, M.form_domain(name))
         ref = M.spec.REFERENCE[name](ops)
         ok = equal_forms(tr.expr, ref, ops)
         n += 1
@@ -84,7 +87,7 @@ def check_symmetry(rep, M: Metrics, pre: str = "") -> int:
         dom, ax = M.spec.AXIOMS.get(name, ("R", ""))
         if "s" not in ax:
             continue
-        tr, ops = M.translated(name)
+        tr, ops = M.translated(name, M.form_domain(name))
         sw = tr.expr.subs({ops.X: ops.Y, ops.Y: ops.X}, simultaneous=True)
         ok = equal_forms(tr.expr, sw, ops)
         n += 1
@@ -99,7 +102,7 @@ def check_zero_self(rep, M: Metrics, pre: str = "") -> int:
         dom, ax = M.spec.AXIOMS.get(name, ("R", ""))
         if "z" not in ax:
             continue
-        tr, ops = M.translated(name)
+        tr, ops = M.translated(name, M.form_domain(name))
         z = normal_form(tr.expr.subs(ops.Y, ops.X), ops)
         try:
             ok = sp.simplify(z) == 0
